@@ -264,7 +264,7 @@ def check_case(case, rec):
             ok2, prods2 = rec.guard('apply', lambda: list(tf(r)))
             if ok and ok2 and len(prods1) <= 60:
                 a, b = set(_canon(p) for p in prods1), set(_canon(p) for p in prods2)
-                if a != b and not _gap(prods1 + prods2):
+                if a != b and not _gap([m] + prods1 + prods2):
                     rec.fail('renumbering', f'{label}: product set changes under renumbering: {sorted(a)[:3]} vs {sorted(b)[:3]}')
                     return
     # with ring fixing: products must still be well formed
